@@ -10,8 +10,40 @@ pub fn judge_scenario(id: &'static str, sc: &Scenario, info: &mut CaseInfo, soun
     crate::erun::judge(&j, sc, info, |_, _| None)
 }
 
+fn tal_swap_profile() -> HistProfile {
+    let mut hp = HistProfile::default();
+    hp.base.fault_16 = 1;
+    hp.base.max_cas = 4;
+    hp.base.versions = 2;
+    hp.incomplete_16 = 1;
+    hp.rollback_16 = 1;
+    hp.fail_module_16 = 3;
+    hp.offline_16 = 2;
+    hp.max_steps = 3;
+    hp
+}
+
+fn tal_swap_history(words: &[u16], hp: &HistProfile) -> Scenario {
+    let mut sc = history_run(words, hp);
+    let mut d = D::new(words);
+    for _ in 0..13 {
+        d.next();
+    }
+    let roots: Vec<usize> = sc.cas.iter().enumerate().filter(|(_, c)| c.parent.is_none()).map(|(i, _)| i).collect();
+    for (n, step) in sc.steps.iter_mut().enumerate() {
+        for r in &roots {
+            // mostly from the second run on, so a certificate for the old key is already stored
+            let chance = if n == 0 { 1 } else { 6 };
+            if d.chance(chance, 16) {
+                step.foreign_tal_key.push(*r);
+            }
+        }
+    }
+    sc
+}
+
 pub fn run(ctx: &Ctx, rep: &mut Report, replay: Option<&serde_json::Value>) {
-    rep.rule("E-rpki single-run scenarios from an empty cache: 1-2 TALs, up to 7 CAs over 3 rsync modules, 0-5 objects per CA (ROA v4/v6, ASPA, router cert, GBR), faults from a closed catalogue on CA certificates, manifests/CRLs and objects, config knobs varied; every object owns a unique slot; oracle = reference model (DESIGN Appendix A), soundness direction: every served item must belong to a valid object under an accepted chain; non-trivial = >=1 fault and >=1 valid payload item elsewhere; distinct by serialised scenario");
+    rep.rule("(a) E-rpki histories of 2-3 runs in which a TAL file is replaced by one carrying a different key while the repository, the local rsync copy or only the store still hold the trust anchor certificate for the old key (with unreachable modules and offline runs): nothing of that TAL may be served; (b) E-rpki single-run scenarios from an empty cache: 1-2 TALs, up to 7 CAs over 3 rsync modules, 0-5 objects per CA (ROA v4/v6, ASPA, router cert, GBR), faults from a closed catalogue on CA certificates, manifests/CRLs and objects, config knobs varied; every object owns a unique slot; oracle = reference model (DESIGN Appendix A), soundness direction: every served item must belong to a valid object under an accepted chain; non-trivial = >=1 fault and >=1 valid payload item elsewhere; distinct by serialised scenario");
     rep.assume("the reference model's fault catalogue has a single consequence per fault (Appendix A); objects are issued with rpki's own builders over a committed RSA key pool");
     let profile = Profile::default();
     ctx.shrink_iters.store(150, std::sync::atomic::Ordering::Relaxed);
@@ -20,6 +52,20 @@ pub fn run(ctx: &Ctx, rep: &mut Report, replay: Option<&serde_json::Value>) {
         run_case(ctx, rep, &t.sub, &t.case, |sc, i| judge_scenario("C01", sc, i, true, false));
         return;
     }
+    // histories over a persistent cache in which a TAL is re-keyed between runs while the repository
+    // (or only the store) still holds the certificate for the old key
+    let hp = tal_swap_profile();
+    run_prop_par(ctx, rep, "talswap", ctx.tier.pick(120, 3000), 8, || genome(260).prop_map({
+        let hp = hp.clone();
+        move |w| tal_swap_history(&w, &hp)
+    }), |sc, i| {
+        let v = judge_scenario("C01", sc, i, true, false);
+        i.nontrivial = sc.steps.iter().skip(1).any(|s| !s.foreign_tal_key.is_empty());
+        if i.nontrivial {
+            i.class("tal_rekeyed_after_store");
+        }
+        v
+    });
     let p = profile.clone();
     run_prop_par(ctx, rep, "single", ctx.tier.pick(320, 8000), 16, || genome(160).prop_map({
         let p = p.clone();
